@@ -104,14 +104,17 @@ def cross_validate_interp(scns):
     return checked, bad
 
 
-def replay_all(ctx, scns, cse_settings=(False, True), timeout=90, force_ekf=False, presentation=None):
+def replay_all(ctx, scns, cse_settings=(False, True), timeout=90, force_ekf=False, presentation="random"):
     """Replay every scenario under every CSE setting.  Returns list of (scn, cse, status, result)."""
     tasks = []
     index = []
     for s in scns:
         clean = {k: v for k, v in s.items() if not k.startswith("_")}
         for cse in cse_settings:
-            tasks.append(("tasks", "py_replay", (clean, cse, presentation, force_ekf), timeout))
+            # every scenario is written down in its own (seeded) random presentation: declaration order per role, container,
+            # proactive_simplify -- the abstract definition, and therefore every named expectation, is the same
+            pres = ("random:%s:%s:%s" % (ctx.seed, s.get("_id", ""), cse)) if presentation == "random" else presentation
+            tasks.append(("tasks", "py_replay", (clean, cse, pres, force_ekf), timeout))
             index.append((s, cse))
     ctx.log("replaying %d scenarios x %d CSE settings into the Python implementation" % (len(scns), len(cse_settings)))
     results = workers.run_tasks(tasks, procs=ctx.cores)
